@@ -84,6 +84,9 @@ def _spell_validity(rng, kind, d: dt.date):
             {'t': 'tuple_int', 'v': [d.year, d.month]},
             {'t': 'tuple_str', 'v': [f"{d.year:04d}", f"{d.month:02d}"]},
             {'t': 'tuple_named', 'v': [d.year, d.month]},
+            # each element "convertible to int" on its own
+            {'t': 'tuple_mixed', 'v': [d.year, f"{d.month:02d}"]},
+            {'t': 'tuple_mixed', 'v': [f"{d.year:04d}", d.month]},
             {'t': 'str', 'v': f"{d.year:04d}-{d.month:02d}"}])
     return rng.choice([{'t': 'date', 'v': d.isoformat()},
                        {'t': 'str', 'v': d.isoformat()}])
@@ -465,7 +468,8 @@ class RefRates:
                 if 1 <= x <= 9999:
                     return 'year', (x,)
                 return None
-            if t in ('tuple_int', 'tuple_str', 'tuple_named'):
+            if t in ('tuple_int', 'tuple_str', 'tuple_named',
+                     'tuple_mixed'):
                 y, m = int(x[0]), int(x[1])
                 if 1 <= y <= 9999 and 1 <= m <= 12:
                     return 'month', (y, m)
@@ -677,7 +681,7 @@ def execute(h):
             return None
         if t in ('int', 'str', 'float'):
             return x
-        if t in ('tuple_int', 'tuple_str'):
+        if t in ('tuple_int', 'tuple_str', 'tuple_mixed'):
             return tuple(x)
         if t == 'tuple_named':
             # a tuple is a tuple: (year, month) as named tuple
